@@ -20,6 +20,8 @@ from ._template import Template
 
 import enum
 
+from fractions import Fraction
+
 import typing
 
 T = typing.TypeVar("T")
@@ -148,7 +150,7 @@ class SFixed(Template[_FixedTemplateArg], AssignableType):
     @classmethod
     @pyeval
     def _adjust_val(cls, val):
-        return int(val / 2**cls._exp)
+        return int(Fraction(val) / Fraction(2) ** cls._exp)
 
     @pyeval
     def __repr__(self):
@@ -502,7 +504,7 @@ class UFixed(Template[_FixedTemplateArg], AssignableType):
     @classmethod
     @pyeval
     def _adjust_val(cls, val):
-        return int(val / 2**cls._exp)
+        return int(Fraction(val) / Fraction(2) ** cls._exp)
 
     @pyeval
     def __repr__(self):
